@@ -8,6 +8,7 @@ cd /verif || exit 2
 [ -f "$wt/_seed/patch.diff" ] || { echo "$sid: no seed delivered"; exit 1; }
 mkdir -p seeded/$sid; cp "$wt"/_seed/* seeded/$sid/
 git -C "$wt" checkout -q -- . ; rm -rf "$wt/_seed"
+git -C "$wt" checkout -q --detach "$(git -C /repo rev-parse HEAD)"     # evaluate on top of the current /repo commit
 PYTHONPATH="$wt" ./tools/confirm_seed.sh "$wt" /verif/seeded/$sid /verif/seeded/$sid/confirm.json
 python3 -c "
 import json,sys; c=json.load(open('/verif/seeded/$sid/confirm.json'))
